@@ -41,8 +41,11 @@ def make_input(rng):
     if r < 0.2:
         body = bytes(rng.randrange(256) for _ in range(rng.randint(0, 60)))
         return "random-after-prefix", b"BBCD" + bytes([rng.choice([0x00, 0x10, 0x20, 0x30, 0xC8, 0xE8, 0xCC, 0xEC])]) + body
+    if r < 0.42:
+        # hand-packed tiny pictures / fragments with degenerate slice and transform parameters
+        return common.degenerate_stream(rng)
     desc, data, pics = common.encoder_stream(rng)
-    if r < 0.45:
+    if r < 0.6:
         # 1-3 concatenated conformant sequences (differing configurations), some with extra padding units
         parts = [data]
         for _ in range(rng.choice([0, 1, 1, 2])):
